@@ -2,9 +2,19 @@
 property, extra trusted-base entries, what is partial."""
 
 PROPS = {
+    "C11": {
+        "suites": ["codec", "segment"],
+        "partial": "the universal claim over all byte strings is carried by totality and bound theorems about the model (decoder, scan, read path); that the Go code has no panic site outside the modelled ones is established by the malformed-input stream of the codec/segment suites (run in-process with recover), not by proof; Open-level damage classes and handle release after a failed Open are exercised by the wal-level suites when present",
+        "assumptions": ["reads do not fail with I/O errors in the model", "Go slice/alloc semantics as modelled"],
+    },
     "C12": {
-        "suites": ["codec"],
-        "partial": "time.Time is modelled by its MarshalBinary wire form (Go stdlib, trusted); pool aliasing is carried by the generated fact decoderBytesCopies plus the monitor that scribbles over the input buffer after Decode; the WAL-level halves (StoreLogs/GetLog round trip, codec-ID checks across reopen) are carried by the wal suites",
+        "suites": ["codec", "wal"],
+        "partial": "time.Time is modelled by its MarshalBinary wire form (Go stdlib, trusted); pool aliasing is carried by the generated fact decoderBytesCopies plus the monitor that scribbles over the input buffer after Decode; StoreLogs/GetLog round trip and the codec-ID matrix across reopen are carried by the wal suite (correspondence + monitor)",
         "assumptions": ["time.Time.MarshalBinary/UnmarshalBinary as in Go 1.23 (wire form 15/16 bytes)", "bytes.Buffer.Write never fails"],
+    },
+    "C20": {
+        "suites": ["wal", "verifier"],
+        "partial": "static half (every emitting call site is declared, right kind, literal name, no duplicates) is a theorem over the regenerated call-site table; the dynamic half (counters equal true totals) is decided by the correspondence of Model.Wal/Model.Verifier counters with the real AtomicCollector after every case plus the monitor that recomputes the totals from API results; the counters_exact theorem over all op sequences is not yet mechanised",
+        "assumptions": [],
     },
 }
